@@ -11,6 +11,8 @@ import (
 	"context"
 	"fmt"
 	"strings"
+	"sync/atomic"
+	"time"
 
 	"gorm.io/gorm"
 	"gorm.io/gorm/clause"
@@ -227,16 +229,29 @@ func run(c *core.Ctx) {
 	r := c.R
 	prep := c.Case%2 == 1
 	h := handles[c.Case%2]
-	if _, err := h.SQL.Exec(txm.SeedSQL); err != nil {
-		panic(err)
+	if err := reseed(h); err != nil {
+		c.Inconclusive("could not restore the tables: " + err.Error())
+		return
 	}
 	o := genOp(r, c.Case/2)
 	nest := r.Intn(3)
 	viaSession := r.Bool()
 	opID := fmt.Sprintf("op-%d", c.Case)
 	parent := context.WithValue(context.Background(), ctxKey{}, opID)
+	// the caller's context may carry a deadline (far away) or be a cancellable child: still the same context
+	ctxKind := (c.Case / 2) % 3
+	switch ctxKind {
+	case 1:
+		var cancelDl context.CancelFunc
+		parent, cancelDl = context.WithDeadline(parent, time.Now().Add(6*time.Hour))
+		defer cancelDl()
+	case 2:
+		var cancelP context.CancelFunc
+		parent, cancelP = context.WithCancel(parent)
+		defer cancelP()
+	}
 	sibling := r.Intn(6) // what else is derived from the context-bound handle before the operation uses it
-	desc := fmt.Sprintf("prepareStmt=%v nest=%d via=%s sibling=%d :: %s", prep, nest, map[bool]string{true: "Session{Context}", false: "WithContext"}[viaSession], sibling, o.desc)
+	desc := fmt.Sprintf("prepareStmt=%v context=%s nest=%d via=%s sibling=%d :: %s", prep, []string{"value", "value+deadline", "value+cancellable"}[ctxKind], nest, map[bool]string{true: "Session{Context}", false: "WithContext"}[viaSession], sibling, o.desc)
 	c.Logf("OP %s", desc)
 	other := context.WithValue(context.Background(), ctxKey{}, "sibling-of-"+opID)
 	mk := func(ctx context.Context) *gorm.DB {
@@ -319,11 +334,17 @@ func run(c *core.Ctx) {
 		}
 	}
 	// (2) already-cancelled context: no statement may run
-	if _, err := h.SQL.Exec(txm.SeedSQL); err != nil {
-		panic(err)
+	if err := reseed(h); err != nil {
+		c.Inconclusive("could not restore the tables: " + err.Error())
+		return
 	}
 	cctx, cancel := context.WithCancel(parent)
 	cancel()
+	if c.Case%4 >= 2 {
+		// ... or one whose deadline has passed
+		cctx, cancel = context.WithDeadline(parent, time.Unix(1, 0))
+		defer cancel()
+	}
 	bound = mk(cctx)
 	txm.ResetHooks()
 	mark = h.Rec.Mark()
@@ -345,6 +366,92 @@ func run(c *core.Ctx) {
 		}
 		c.Violation("cancelled/"+strings.Fields(o.desc)[0], map[string]interface{}{"op": desc, "problems": p})
 	}
+	// (3) cancelled in mid-operation, at up to 3 (thorough: every) positions
+	K := len(evs)
+	var ks []int
+	if c.Thorough || K <= 4 {
+		for k := 1; k < K; k++ {
+			ks = append(ks, k)
+		}
+	} else {
+		ks = []int{1, 1 + r.Intn(K-1), K - 1}
+	}
+	for _, k := range ks {
+		cancelMidway(c, h, parent, mk, exec, k, desc, strings.Fields(o.desc)[0])
+	}
+}
+
+// cancelMidway runs the operation once more and cancels its context while the k-th context-carrying driver call
+// is being made (that call itself may still complete): no later call of the operation may reach the driver, an
+// error must come back. A statement issued through a fresh internal session after that point would show here.
+func cancelMidway(c *core.Ctx, h *vdb.Handle, parent context.Context, mk func(context.Context) *gorm.DB, exec func(*gorm.DB) error, k int, desc, name string) {
+	if err := reseed(h); err != nil {
+		c.Inconclusive("could not restore the tables after a cancelled run: " + err.Error())
+		return
+	}
+	cctx, cancel := context.WithCancel(parent)
+	defer cancel()
+	bound := mk(cctx)
+	txm.ResetHooks()
+	var n, cancelSeq, cancelStmt int64
+	h.Rec.SetHook(func(ev *recdrv.Event) error {
+		switch ev.Kind {
+		case recdrv.KBegin, recdrv.KPrepare, recdrv.KExec, recdrv.KQuery, recdrv.KStmtExec, recdrv.KStmtQuery:
+			if atomic.AddInt64(&n, 1) == int64(k) {
+				atomic.StoreInt64(&cancelSeq, ev.Seq)
+				if ev.Kind == recdrv.KPrepare {
+					// database/sql prepares a statement on the connection at hand and executes it there within ONE
+					// of its calls: the execution of this very driver statement still belongs to the call in flight
+					atomic.StoreInt64(&cancelStmt, ev.Stmt)
+				}
+				cancel()
+			}
+		}
+		return nil
+	})
+	mark := h.Rec.Mark()
+	err := exec(bound)
+	h.Rec.SetHook(nil)
+	cs := atomic.LoadInt64(&cancelSeq)
+	if cs == 0 {
+		return // the operation made fewer calls this time
+	}
+	c.Inc("cancelled_midway_runs")
+	var ran []string
+	for _, e := range ctxEvents(h.Rec.Since(mark)) {
+		if e.Seq > cs && !(e.Stmt != 0 && e.Stmt == atomic.LoadInt64(&cancelStmt) && (e.Kind == recdrv.KStmtExec || e.Kind == recdrv.KStmtQuery)) {
+			ran = append(ran, fmt.Sprintf("(context value %v, its Err at the call: %v) %s", e.CtxVal, e.CtxErr, short(e.String())))
+		}
+	}
+	var p []string
+	if len(ran) > 0 {
+		p = append(p, fmt.Sprintf("%d driver calls were made after the context had been cancelled during call %d: %v", len(ran), k, ran))
+	}
+	if err == nil && len(ran) > 0 {
+		p = append(p, "and no error was returned")
+	}
+	if len(p) > 0 {
+		c.Violation("cancelled-midway/"+name, map[string]interface{}{"op": desc, "cancelled_during_call": k, "problems": p})
+	}
+}
+
+// reseed restores the tables. A run whose context was cancelled may have left a transaction that database/sql
+// rolls back on a goroutine of its own, or rows it closes there: wait for that (bounded), then retry on "locked".
+func reseed(h *vdb.Handle) error {
+	for i := 0; i < 2000; i++ {
+		if ct := h.Rec.Counters(); ct.OpenTx == 0 && ct.OpenRows == 0 {
+			break
+		}
+		time.Sleep(time.Millisecond)
+	}
+	var err error
+	for i := 0; i < 400; i++ {
+		if _, err = h.SQL.Exec(txm.SeedSQL); err == nil || !strings.Contains(err.Error(), "locked") {
+			return err
+		}
+		time.Sleep(5 * time.Millisecond)
+	}
+	return err
 }
 
 func short(s string) string {
